@@ -25,11 +25,12 @@ def setRpf (s : Stk) (p : Option Nat) : Stk :=
 /-- `Stack.Valid()` on an initialised stack: an error (class 1022, the library's own message) exactly when the closure reports one -/
 def ValidE (K : Closures) (s : Stk) : Option Nat := if s.valid K then none else some 1022
 
-/-- `Stack.Unmarshal()` -/
+/-- `Stack.Unmarshal()`: the receiver's own Unmarshaler if one is installed, else `stack.unmarshalDefault()`
+(label, then the closure-aware element loop: the entries collected and the error that ended it) -/
 def UnmarshalP (K : Closures) (s : Stk) : List Val × Option Nat :=
   match s.cfg.umf with
   | some p => K.unmarshal p
-  | none => (s.unmarshal, none)
+  | none => (strV s.cfg.kindText :: (unmarshalElemsK K s.xs).1, (unmarshalElemsK K s.xs).2)
 
 /-- `(*Stack).Marshal(in...)` on an initialised receiver -/
 def MarshalP (K : Closures) (interp : Nat → Val → Option Nat) (s : Stk) (input : List Val) : Stk × Option Nat :=
@@ -50,11 +51,12 @@ def setRpf (c : Cnd) (p : Option Nat) : Cnd := if c.readOnly then c else { c wit
 def setEqf (c : Cnd) (p : Option Nat) : Cnd := if c.readOnly then c else { c with cfg := { c.cfg with eqf := p } }
 def setUmf (c : Cnd) (p : Option Nat) : Cnd := if c.readOnly then c else { c with cfg := { c.cfg with umf := p } }
 
-/-- `Condition.Unmarshal()` -/
+/-- `Condition.Unmarshal()`: the receiver's own Unmarshaler if one is installed, else `condition.unmarshalDefault()`
+(the four-entry row, with the error of the expression's `Unmarshal()` if the expression is a Stack) -/
 def UnmarshalP (K : Closures) (c : Cnd) : List Val × Option Nat :=
   match c.cfg.umf with
   | some p => K.unmarshal p
-  | none => ([strV conditionLabel, strV c.kw, .opv c.op, unmarshalExpr c.ex], none)
+  | none => ([strV conditionLabel, strV c.kw, .opv c.op, (unmarshalExprK K c.ex).1], (unmarshalExprK K c.ex).2)
 end Cnd
 
 end Stackage
